@@ -98,6 +98,24 @@ pub fn histories(p: u64, tier: Tier, heavy: bool) -> Vec<Vec<Action>> {
             out.push(vec![tx(mk), tx(vec![OpSpec::bucket("delb", &[], "lk")]), tx((0..4).map(|i| OpSpec::put(&["b2"], &format!("K{}*{}", i, kl), &small)).chain(std::iter::once(OpSpec::bucket("goc", &[], "b2"))).rev().collect())]);
         }
     }
+    // legitimately unusual trees under every option set (strict mode must accept them): everything
+    // deleted (an empty root leaf), a bucket whose only child is an empty bucket, a value with exactly
+    // one overflow page, all of it removed again
+    {
+        let exact = format!("e*{}", 2 * p - 40 - 32 - 1);
+        out.push(vec![
+            base.clone(),
+            tx(keys.iter().map(|k| OpSpec::del(&["b"], k)).collect()),
+            tx(vec![OpSpec::bucket("create", &["b"], "only"), OpSpec::bucket("create", &["b", "only"], "empty")]),
+            Action::Reopen,
+            tx(vec![OpSpec::put(&["b", "only", "empty"], "o", &exact)]),
+            tx(vec![OpSpec::del(&["b", "only", "empty"], "o")]),
+            tx(vec![OpSpec::bucket("delb", &["b", "only"], "empty"), OpSpec::bucket("delb", &["b"], "only")]),
+            tx(vec![OpSpec::bucket("delb", &[], "b")]),
+            Action::Reopen,
+            tx(vec![OpSpec::bucket("create", &[], "b"), OpSpec::put(&["b"], "again", &small)]),
+        ]);
+    }
     // nested buckets, error kinds, delete nested then ancestor
     out.push(vec![
         tx(vec![OpSpec::bucket("create", &[], "x"), OpSpec::bucket("create", &["x"], "y"), OpSpec::put(&["x", "y"], "in", &third), OpSpec::put(&["x"], "y", &small), OpSpec::bucket("create", &[], "x"), OpSpec::bucket("getb", &["x"], "nope")]),
